@@ -164,3 +164,15 @@ Theorem riding_together_R :
                     (Some (shift_listener T0 T1 li)) (shift_emitter T0 T1 e) t =
     spatial_frame_R p10 ease d sinL cosL sinR cosR dmin dmax atten inp (Some li) e t.
 Proof. exact riding_together. Qed.
+
+(** A spatial track never amplifies: whatever the placement of listener and emitter, the strength
+    (also outside [0,1]), the distance range (also empty or inverted) and the attenuation curve,
+    each output channel is bounded in magnitude by the larger input channel. *)
+Theorem spatialize_never_amplifies_R :
+  forall (p10 ease : R -> R) (d sinL cosL sinR cosR dmin dmax : R) (atten : bool) (l r : R)
+         (lp : vec3 R) (lq : quat R) (pos : vec3 R) (sraw : R),
+    unitq lq -> ears_ok sinL cosL sinR cosR -> ease_ok ease -> powf10_ok p10 ->
+    exists ol or_,
+      spatialize_R p10 ease d sinL cosL sinR cosR dmin dmax atten (l, r) lp lq pos sraw = Ok (ol, or_) /\
+      Rabs ol <= Rmax (Rabs l) (Rabs r) /\ Rabs or_ <= Rmax (Rabs l) (Rabs r).
+Proof. exact spatialize_never_amplifies. Qed.
